@@ -126,6 +126,10 @@ impl<'a> G<'a> {
                         let keep = self.r.below(2);
                         let extra = self.r.below(3);
                         let mut b = (keep << 8) | if mode == 7 || mode == 8 { extra } else { 0 };
+                        if matches!(mode, 0 | 4 | 5) {
+                            // which operator of the shared macro
+                            b |= self.r.below(10) << 16;
+                        }
                         let calls = match mode {
                             7 | 8 => (1 + extra as usize) * self.n * self.w,
                             9 | 10 => self.n.saturating_sub(1) * self.w,
@@ -691,7 +695,7 @@ impl<'a> G<'a> {
                     12 => {
                         // arithmetic and zero()/one() padded size conversions with elements that are not Copy
                         let a = self.r.below(5);
-                        let b = (self.r.below(2) << 8) | self.r.below(2);
+                        let b = (self.r.below(2) << 8) | self.r.below(2) | (self.r.below(4) << 16);
                         let cbs = match a {
                             0 | 1 | 2 => nm * nm,
                             _ => 7,
